@@ -56,6 +56,7 @@ class Gen:
         self.kinds = {}      # distribution of declaration kinds (for evidence)
         self.keep_sat = keep_sat
         self.feasible = True
+        self.operands_used = set()
         self.focus = profile.startswith("focus_")
         if self.focus:
             self.invalid_p = 0.0
@@ -386,7 +387,12 @@ class Gen:
         rng = self.rng
         n = self.nconstraints()
         if n and rng.random() < 0.7:
-            return ("ref", rng.randrange(n))
+            # prefer constraints no connective has taken yet: "an operand is not enforced on its own" can only be
+            # observed on a constraint that would otherwise be enforced
+            fresh = [i for i in range(n) if i not in self.operands_used]
+            i = rng.choice(fresh) if fresh and rng.random() < 0.6 else rng.randrange(n)
+            self.operands_used.add(i)
+            return ("ref", i)
         return ("raw", self.raw_fml())
 
     def g_fol(self):
@@ -600,8 +606,8 @@ class Gen:
                  lambda: ("startLatest", rng.choice([None, ts[:2] or None])), lambda: ("startEarliest",),
                  lambda: ("greatestStart", rng.choice([None, ts[:2] or None]))]
         if n:
-            forms += [lambda: ("maximizeIndicator", rng.randrange(n), rng.choice([1, 2, 3])),
-                      lambda: ("minimizeIndicator", rng.randrange(n), rng.choice([1, 2, 5]))] * 4
+            forms += [lambda: ("maximizeIndicator", rng.randrange(n), rng.choice([1, 2, 3, 0])),
+                      lambda: ("minimizeIndicator", rng.randrange(n), rng.choice([1, 2, 5, 0]))] * 4
         if res:
             forms += [lambda: ("resourceUtilization", rng.choice(res))] * 2
             forms += [lambda: ("resourceUtilization", rng.choice(res)),
